@@ -167,6 +167,7 @@ func (d *PathDecoder) decodeReferenceTargetsForBody(body hcl.Body, parentBlock *
 		}
 
 		var bodyRef reference.Target
+		collectBodyRef := bSchema.Address.BodyAsData
 
 		if bSchema.Address.BodyAsData {
 			bodyRef = reference.Target{
@@ -193,8 +194,6 @@ func (d *PathDecoder) decodeReferenceTargetsForBody(body hcl.Body, parentBlock *
 			}
 
 			bodyRef.Type = bodyToDataType(bSchema.Type, bSchema.Body)
-
-			refs = append(refs, bodyRef)
 		}
 
 		if bSchema.Address.DependentBodyAsData {
@@ -232,10 +231,16 @@ func (d *PathDecoder) decodeReferenceTargetsForBody(body hcl.Body, parentBlock *
 						d.collectInferredReferenceTargetsForBody(addr, bSchema.Address, blk.Body, fullSchema, nil, bodyRef.LocalAddr)...)
 				}
 
-				if !bSchema.Address.BodyAsData {
-					refs = append(refs, bodyRef)
-				}
+				collectBodyRef = true
 			}
+		}
+
+		if collectBodyRef {
+			// The body target is appended only after the dependent body
+			// was accounted for and its nested targets were sorted, such
+			// that the collected target reflects all of the above.
+			sort.Sort(bodyRef.NestedTargets)
+			refs = append(refs, bodyRef)
 		}
 
 		if bSchema.Address.SupportUnknownNestedRefs {
@@ -247,8 +252,6 @@ func (d *PathDecoder) decodeReferenceTargetsForBody(body hcl.Body, parentBlock *
 				Type:        cty.DynamicPseudoType,
 			})
 		}
-
-		sort.Sort(bodyRef.NestedTargets)
 	}
 
 	for _, tb := range bodySchema.TargetableAs {
